@@ -2,7 +2,7 @@
 use parity_scale_codec::{Compact, Decode, Encode};
 #[derive(Encode, Decode)]
 pub enum T {
-	#[codec(skip)] #[codec(index = 2)] V0(u8),
+	#[codec(index = 2)] #[codec(skip)] V0(u8),
 	V1(u8),
 	#[codec(index = 0)] V2,
 }
